@@ -7,6 +7,7 @@ CONSTANTS
   MaxUmi = 2
   Indexes = {"single", "dual"}
   Limit = 60
+  Shapes = {"rr"}
   RequireSafe = TRUE
   Variant = "impl_clamp"
 INVARIANT Inv_C04_QTotal
